@@ -132,6 +132,17 @@ func syncHook(f *os.File, after bool) {
 	if after {
 		s.shadow.synced(f)
 		inc.syncs++
+	} else {
+		inc.syncGrown = false
+		if strings.HasSuffix(name, ".wal") {
+			if ino, isDir, ok := inoOfFile(f); ok && !isDir {
+				if fi, err := f.Stat(); err == nil {
+					if d, ok := s.shadow.dur[ino]; ok && len(d) > 0 && fi.Size() > int64(len(d)) {
+						inc.syncGrown = true
+					}
+				}
+			}
+		}
 	}
 	s.mu.Unlock()
 	if after {
